@@ -1,2 +1,5 @@
 import Props.C01
+import Props.C03
+import Props.C15
 import Props.C16
+import Props.C17
